@@ -27,41 +27,61 @@ theorem errors_contained_run (c : Consts) (env : Env) (o : Nat → Outcome) (n :
   run_setOut c env o n σ []
 
 /-- **startup_writes_call_no_read.**  What `writeInitParams` calls for module `i` (in the start-up round and behind it),
-for every environment and every state: exactly the write functions of the start values still in its `writeDict`, in
-that order — no read function of any parameter, polled or not, and no poll function; the calls do not depend on how
-any of them ends; afterwards nothing is left to write for that module (a second `writeInitParams` calls nothing) and
-the start values of the other modules are untouched. -/
+for every environment — whatever the write functions do, common write handlers that take further entries out of
+`writeDict` included — and every state: only write functions of start values that were in its `writeDict`, in that order
+(a sublist: an entry somebody has taken in the mean time is passed over) — no read function of any parameter, polled or
+not, and no poll function; the calls do not depend on how any of them ends; afterwards nothing is left to write for that
+module (a second `writeInitParams` calls nothing) and the start values of the other modules are untouched. -/
 theorem startup_writes_call_no_read (env : Env) (o : Nat → Outcome) (σ : PollState) (i : Nat) :
-    (writeInit env σ i []).evs.map evKey = (σ.pending i).map (fun p => (i, Fn.write p)) ∧
+    List.Sublist ((writeInit env σ i []).evs.map evKey) ((σ.pending i).map (fun p => (i, Fn.write p))) ∧
     (∀ e ∈ (writeInit env σ i []).evs, isRead e.f = false ∧ e.f ≠ Fn.doPoll) ∧
     writeInit (env.setOut o) σ i [] = writeInit env σ i [] ∧
     (writeInit env σ i []).σ.pending i = [] ∧
     (writeInit env (writeInit env σ i []).σ i []).evs = [] ∧
     ∀ j, j ≠ i → (writeInit env σ i []).σ.pending j = σ.pending j := by
-  have hc : (writeInit env σ i []).evs.map evKey = (σ.pending i).map (fun p => (i, Fn.write p)) := by
-    simpa using writeInit_calls env σ i []
   obtain ⟨hp, hother⟩ := writeInit_pending env σ i []
-  refine ⟨hc, ?_, writeInit_setOut env o σ i [], hp, ?_, hother⟩
+  refine ⟨?_, ?_, writeInit_setOut env o σ i [], hp, ?_, hother⟩
+  · obtain ⟨l, h1, h2⟩ := writeInit_calls env σ i []
+    rw [h1]; simpa using h2
   · intro e he
-    have hk : evKey e ∈ (σ.pending i).map (fun p => (i, Fn.write p)) := hc ▸ List.mem_map_of_mem he
-    obtain ⟨p, _, hpe⟩ := List.mem_map.1 hk
-    have hf : e.f = Fn.write p := (congrArg Prod.snd hpe).symm
-    rw [hf]; exact ⟨rfl, by simp⟩
-  · have := writeInit_calls env (writeInit env σ i []).σ i []
-    rw [hp] at this
-    simpa using this
+    rcases writeInit_events env σ i [] e he with h | ⟨_, p, hf, _⟩
+    · cases h
+    · rw [hf]; exact ⟨rfl, by simp⟩
+  · obtain ⟨l, h1, h2⟩ := writeInit_calls env (writeInit env σ i []).σ i []
+    rw [hp] at h2
+    have : l = [] := by simpa using h2
+    rw [this] at h1
+    simpa using h1
+
+/-- **startup_writes_all_written.**  When no write function takes further entries out of `writeDict` (no common write
+handlers), `writeInitParams` calls the write function of EVERY start value of the module, in the order of `writeDict`,
+each exactly once. -/
+theorem startup_writes_all_written (env : Env) (hn : NoTakes env) (σ : PollState) (i : Nat) (hnd : (σ.pending i).Nodup) :
+    (writeInit env σ i []).evs.map evKey = (σ.pending i).map (fun p => (i, Fn.write p)) := by
+  simpa using writeInit_calls_exact env hn σ i hnd []
+
+/-- the table fact the model's `writeParams` rests on (re-extracted from the source of `Module.writeInitParams` on every
+run): the only methods of the module it looks up are `write_<pname>`, and it calls no method of the module directly —
+no `read_<pname>` is reached from there -/
+theorem writeInitParams_looks_up_write_functions_only :
+    Generated.C13.writeInitParamsLookups = ["write_"] ∧ Generated.C13.writeInitParamsSelfCalls = [] := by
+  decide +kernel
 
 /-- **late_writes_contained.**  The `writeInitParams` calls behind the start-up round (repaired code: the configured
 values a round broken off by a communication failure had skipped): the successor state and the call list do not depend
 on any outcome — whatever a late write raises (SECoP / silent / communication error, arbitrary exception), the thread
-goes on — and the calls are, for every module of the thread in list order, polled or not, exactly the write functions of
-the start values it has still to write: no read function is called. -/
-theorem late_writes_contained (env : Env) (o : Nat → Outcome) (is : List Nat) (hnd : is.Nodup) (σ : PollState)
-    (evs : List Event) :
+goes on; every call is a write function of a start value that was still to be written, of a module of the thread — no
+read function is called; and afterwards no module of the thread, polled or not, has anything left to write. -/
+theorem late_writes_contained (env : Env) (o : Nat → Outcome) (is : List Nat) (σ : PollState) (evs : List Event) :
     lateAll (env.setOut o) is σ evs = lateAll env is σ evs ∧
-    (lateAll env is σ []).evs.map evKey = is.flatMap (fun i => (σ.pending i).map (fun p => (i, Fn.write p))) := by
-  refine ⟨lateAll_setOut env o is σ evs, ?_⟩
-  simpa using lateAll_calls env is hnd σ []
+    (∀ e ∈ (lateAll env is σ []).evs, e.m ∈ is ∧ ∃ p, e.f = Fn.write p ∧ p ∈ σ.pending e.m) ∧
+    ∀ j ∈ is, (lateAll env is σ evs).σ.pending j = [] := by
+  obtain ⟨a, _, _⟩ := lateAll_events env is σ []
+  obtain ⟨_, _, c⟩ := lateAll_events env is σ evs
+  refine ⟨lateAll_setOut env o is σ evs, fun e he => ?_, c⟩
+  rcases a e he with h | h
+  · cases h
+  · exact h
 
 /-- everything behind the start-up round — the late writes and any number of turns — is independent of all outcomes:
 from the state the round leaves, no failure of any kind changes what the thread does next (only a communication failure
@@ -752,14 +772,21 @@ functions, and leaves nothing; parameter 3 of module 0 — which has a start val
 example : (writeInit exEnv exState 2 []).evs.map evKey = [(2, .write 0), (2, .write 4)] ∧
     (writeInit exEnv exState 2 []).σ.pending 2 = [] ∧ (writeInit exEnv exState 2 []).σ.pending 0 = [3] ∧
     readsOf (thread exConsts exEnv 30 exState).evs 0 3 = [] :=
-  ⟨(startup_writes_call_no_read exEnv exEnv.out exState 2).1, (startup_writes_call_no_read exEnv exEnv.out exState 2).2.2.2.1,
+  ⟨startup_writes_all_written exEnv (fun _ => rfl) exState 2 (by decide), (startup_writes_call_no_read exEnv exEnv.out exState 2).2.2.2.1,
    (startup_writes_call_no_read exEnv exEnv.out exState 2).2.2.2.2.2 0 (by decide), by decide +kernel⟩
 
-/-- `late_writes_contained` on the state the broken-off round leaves -/
-example : (lateAll exEnv [0, 1, 2] (startupRound exConsts (exEnv.setOut (fun k => if k = 1 then .comm else .exc)) exState).σ []).evs.map evKey =
-    [(2, .write 0), (2, .write 4)] := by
-  rw [(late_writes_contained exEnv exEnv.out [0, 1, 2] (by decide) _ []).2]
+/-- a common write handler: the write function of parameter 0 of the module that is only written also takes parameter 4
+out of `writeDict` (it has written both): `writeInitParams` then passes parameter 4 over — one call, nothing left -/
+example : (writeInit { exEnv with takes := fun k => if k = 0 then [4] else [] } exState 2 []).evs.map evKey = [(2, .write 0)] ∧
+    (writeInit { exEnv with takes := fun k => if k = 0 then [4] else [] } exState 2 []).σ.pending 2 = [] := by
   decide +kernel
+
+/-- `late_writes_contained` on the state the broken-off round leaves: the two start values of the third module -/
+example : (lateAll exEnv [0, 1, 2] (startupRound exConsts (exEnv.setOut (fun k => if k = 1 then .comm else .exc)) exState).σ []).evs.map evKey =
+    [(2, .write 0), (2, .write 4)] ∧
+    ∀ j ∈ [0, 1, 2], (lateAll exEnv [0, 1, 2]
+      (startupRound exConsts (exEnv.setOut (fun k => if k = 1 then .comm else .exc)) exState).σ []).σ.pending j = [] :=
+  ⟨by decide +kernel, (late_writes_contained exEnv exEnv.out [0, 1, 2] _ []).2.2⟩
 
 /-- a trace in which the poll thread reads a parameter marked as not polled right after writing its start value
 (inside `writeInitParams`) is flagged by the monitor, wherever in the trace it is -/
